@@ -62,7 +62,16 @@ impl Bind {
     pub(crate) fn mix(mut self, other: &Self) -> Option<Self> {
         for (k, v) in other.bound_generics.iter() {
             if let Some(existing) = self.bound_generics.get(k) {
-                let new_bind = existing.common_type(v)?;
+                // a generic bound to itself (same-named generic of caller and callee) carries no
+                // information: the other binding decides
+                let identity = |t: &Arc<XType>| matches!(t.as_ref(), XType::XGeneric(g) if g == k);
+                let new_bind = if identity(v) {
+                    existing.clone()
+                } else if identity(existing) {
+                    v.clone()
+                } else {
+                    existing.common_type(v)?
+                };
                 self.bound_generics.insert(*k, new_bind);
             } else {
                 self.bound_generics.insert(*k, v.clone());
